@@ -17,6 +17,7 @@ Structural clauses decided (DESIGN §3/C14):
 from __future__ import annotations
 
 import ast
+import re
 
 from ..core import AnalysisError, dotted, norm_src, walk_no_nested, parent
 from ..cfg import CFG
@@ -37,6 +38,37 @@ ASSUMPTIONS = [
 BLIND_SPOTS = ["a wrong numerical block returned by a contribution", "sign errors in a contribution's local quantity"]
 
 SYS = "cardillo/system.py"
+
+
+def add_membership_sees_same_call(ctx, rule="C14.R17"):
+    """`names stay unique and the registry maps exactly the current contributions` rests on add() rejecting an object that is already listed.
+    With the test and the append in ONE loop pass the test sees the earlier arguments of the same call.  A validate-all-then-append-all
+    split tests against the state before the call only: add(f, f) appends f twice, registers it under two names and assemble() counts it
+    twice.  The rule: every append to self.contributions inside a loop over the arguments is guarded, in that loop, by the membership test
+    on self.contributions - unless the function tests the argument tuple itself for duplicates (set / count), which is left undecided."""
+    from ..model import guards_of
+    rep = ctx.rep
+    rel = "cardillo/system.py"
+    fn = ctx.repo.get(rel, "System.add")
+    C = f"{rel}:System.add"
+    apps = [w for w in ast.walk(fn) if isinstance(w, ast.Expr) and isinstance(w.value, ast.Call) and isinstance(w.value.func, ast.Attribute) and w.value.func.attr in ("append", "extend", "insert")
+            and norm_src(w.value.func.value) == "self.contributions"]
+    if not apps:
+        rep.ok(rule, C, "no append to self.contributions found (no verdict)", verdict="unknown", trivial=True)
+        return
+    own_dup_test = any(isinstance(w, ast.Call) and ((isinstance(w.func, ast.Name) and w.func.id == "set") or (isinstance(w.func, ast.Attribute) and w.func.attr == "count")) for w in ast.walk(fn))
+    for ap in apps:
+        gs = guards_of(ap, fn)
+        ok_ = any((pol and re.sub(r"\s+", " ", t) in ("not contr in self.contributions", "contr not in self.contributions")) or
+                  (pol and " not in self.contributions" in t) or (pol and t.startswith("not ") and t.endswith(" in self.contributions")) or
+                  (not pol and t.endswith(" in self.contributions") and not t.startswith("not ") and " not in " not in t) for (t, pol) in gs)
+        if ok_:
+            rep.ok(rule, C, f"`{norm_src(ap)}` is guarded by the membership test in the same pass")
+        elif own_dup_test:
+            rep.ok(rule, C, f"`{norm_src(ap)}` is not guarded by the membership test, but the function tests its arguments for duplicates itself (no verdict)", verdict="unknown")
+        else:
+            rep.bad(rule, C, ap, f"`{norm_src(ap)}` is not guarded by `... in self.contributions` in its own loop pass: a membership test done beforehand sees the state before the call only, so an "
+                    "object that occurs twice among the arguments is appended twice, registered under two names (one stale) and evaluated twice after assemble()", f"{rel}:{ap.lineno}")
 
 
 def assemble_accumulators_reset(ctx, rule="C14.R16"):
@@ -151,6 +183,8 @@ def run(ctx):
     rep.rule("C14.R5", "list/callee co-definition (non-contact, non-E_pot families)", 40)
     rep.rule("C14.R6", "scatter method m calls contr.m (frozen exception table)", 60)
     rep.rule("C14.R8", "accumulation into index sets that may repeat an index (uDOF/qDOF of interactions) is unbuffered (np.add.at / COO)", 1)
+    rep.rule("C14.R17", "System.add tests 'already part of the system' in the same loop pass that appends: the test has to see what the same call has appended so far (an object listed twice in one add() must be rejected at its second occurrence)", 1)
+    add_membership_sees_same_call(ctx)
     rep.rule("C14.R16", "every attribute System.assemble accumulates into (counters, index lists, connectivity) is bound in assemble itself before the accumulation", 8)
     assemble_accumulators_reset(ctx)
     rep.rule("C14.R15", "a CooMatrix kept on a contribution (constant mass / compliance matrix) is created in the routine that fills it: item stores into a CooMatrix APPEND, so a container created once and filled on every assembly holds k copies after the k-th assemble()", 0)
@@ -985,4 +1019,9 @@ NEUTRAL += [
 
 MUTANTS += [
     dict(id="c14-r16-seed", canary=True, what="[seeded by sub-agent for C24] System.assemble appends to a connectivity list created in __init__", file='cardillo/system.py', edits=[('cardillo/system.py', '        self.contributions = []\n        self.contributions_map = {}\n', '        self.NF_connectivity = []\n\n        self.contributions = []\n        self.contributions_map = {}\n'), ('cardillo/system.py', '                for i_N, i_F, force_law in contr.friction_laws:\n                    if len(i_N) == 0:\n                        self.constant_force_reservoir = True\n', '                for i_N, i_F, force_law in contr.friction_laws:\n                    if len(i_N) == 0:\n                        self.constant_force_reservoir = True\n                    self.NF_connectivity.append((contr.la_NDOF[i_N], contr.la_FDOF[i_F], force_law))\n')], expect="C14.R16"),
+]
+
+MUTANTS += [
+    dict(id="c14-r17-seed", canary=True, what="[seeded by sub-agent] System.add made 'atomic': validate all arguments first, then append all (an object listed twice in one call is added twice)", file='cardillo/system.py',
+         old='        for contr in contrs:\n            if not contr in self.contributions:\n                self.contributions.append(contr)\n                if not hasattr(contr, "name"):\n                    contr.name = "contr" + str(self.ncontr)\n\n                if contr.name in self.contributions_map:\n                    suffix = self.ncontr\n                    new_name = contr.name + "_contr" + str(suffix)\n                    while new_name in self.contributions_map:\n                        suffix += 1\n                        new_name = contr.name + "_contr" + str(suffix)\n                    print(\n                        f"There is another contribution named \'{contr.name}\' which is already part of the system. Changed the name to \'{new_name}\' and added it to the system."\n                    )\n                    contr.name = new_name\n                self.contributions_map[contr.name] = contr\n                self.ncontr += 1\n            else:\n                raise ValueError(f"contribution {str(contr)} already added")\n\n', new='        for contr in contrs:\n            if contr in self.contributions:\n                raise ValueError(f"contribution {str(contr)} already added")\n\n        for contr in contrs:\n            self.contributions.append(contr)\n            if not hasattr(contr, "name"):\n                contr.name = "contr" + str(self.ncontr)\n\n            if contr.name in self.contributions_map:\n                suffix = self.ncontr\n                new_name = contr.name + "_contr" + str(suffix)\n                while new_name in self.contributions_map:\n                    suffix += 1\n                    new_name = contr.name + "_contr" + str(suffix)\n                contr.name = new_name\n            self.contributions_map[contr.name] = contr\n            self.ncontr += 1\n\n', expect="C14.R17"),
 ]
